@@ -6,7 +6,7 @@ import (
 
 // ---- independent proto3 reference encoder (ascending field order, defaults omitted)
 
-func refVarint(b []byte, x uint64) []byte {
+func vh_refVarint(b []byte, x uint64) []byte {
 	for x >= 0x80 {
 		b = append(b, byte(x)|0x80)
 		x >>= 7
@@ -14,58 +14,58 @@ func refVarint(b []byte, x uint64) []byte {
 	return append(b, byte(x))
 }
 
-func refBytesField(b []byte, num int, data string) []byte {
-	b = refVarint(b, uint64(num<<3|2))
-	b = refVarint(b, uint64(len(data)))
+func vh_refBytesField(b []byte, num int, data string) []byte {
+	b = vh_refVarint(b, uint64(num<<3|2))
+	b = vh_refVarint(b, uint64(len(data)))
 	return append(b, data...)
 }
 
-func refVarintField(b []byte, num int, x uint64) []byte {
+func vh_refVarintField(b []byte, num int, x uint64) []byte {
 	if x == 0 {
 		return b
 	}
-	b = refVarint(b, uint64(num<<3))
-	return refVarint(b, x)
+	b = vh_refVarint(b, uint64(num<<3))
+	return vh_refVarint(b, x)
 }
 
-func refStat(s *Stat) []byte {
+func vh_refStat(s *Stat) []byte {
 	var b []byte
 	if s.Path != "" {
-		b = refBytesField(b, 1, s.Path)
+		b = vh_refBytesField(b, 1, s.Path)
 	}
-	b = refVarintField(b, 2, uint64(s.Mode))
-	b = refVarintField(b, 3, uint64(s.Uid))
-	b = refVarintField(b, 4, uint64(s.Gid))
-	b = refVarintField(b, 5, uint64(s.Size))
-	b = refVarintField(b, 6, uint64(s.ModTime))
+	b = vh_refVarintField(b, 2, uint64(s.Mode))
+	b = vh_refVarintField(b, 3, uint64(s.Uid))
+	b = vh_refVarintField(b, 4, uint64(s.Gid))
+	b = vh_refVarintField(b, 5, uint64(s.Size))
+	b = vh_refVarintField(b, 6, uint64(s.ModTime))
 	if s.Linkname != "" {
-		b = refBytesField(b, 7, s.Linkname)
+		b = vh_refBytesField(b, 7, s.Linkname)
 	}
-	b = refVarintField(b, 8, uint64(s.Devmajor))
-	b = refVarintField(b, 9, uint64(s.Devminor))
+	b = vh_refVarintField(b, 8, uint64(s.Devmajor))
+	b = vh_refVarintField(b, 9, uint64(s.Devminor))
 	for k, val := range s.Xattrs { // harnesses use at most one entry
 		var e []byte
-		e = refBytesField(e, 1, k) // map entries always carry key and value
-		e = refBytesField(e, 2, string(val))
-		b = refBytesField(b, 10, string(e))
+		e = vh_refBytesField(e, 1, k) // map entries always carry key and value
+		e = vh_refBytesField(e, 2, string(val))
+		b = vh_refBytesField(b, 10, string(e))
 	}
 	return b
 }
 
-func refPacket(p *Packet) []byte {
+func vh_refPacket(p *Packet) []byte {
 	var b []byte
-	b = refVarintField(b, 1, uint64(p.Type))
+	b = vh_refVarintField(b, 1, uint64(p.Type))
 	if p.Stat != nil {
-		b = refBytesField(b, 2, string(refStat(p.Stat)))
+		b = vh_refBytesField(b, 2, string(vh_refStat(p.Stat)))
 	}
-	b = refVarintField(b, 3, uint64(p.ID))
+	b = vh_refVarintField(b, 3, uint64(p.ID))
 	if len(p.Data) > 0 {
-		b = refBytesField(b, 4, string(p.Data))
+		b = vh_refBytesField(b, 4, string(p.Data))
 	}
 	return b
 }
 
-func statFieldsEqual(a, b *Stat) bool {
+func vh_statFieldsEqual(a, b *Stat) bool {
 	if a.Path != b.Path || a.Mode != b.Mode || a.Uid != b.Uid || a.Gid != b.Gid || a.Size != b.Size || a.ModTime != b.ModTime ||
 		a.Linkname != b.Linkname || a.Devmajor != b.Devmajor || a.Devminor != b.Devminor || len(a.Xattrs) != len(b.Xattrs) {
 		return false
@@ -79,22 +79,22 @@ func statFieldsEqual(a, b *Stat) bool {
 	return true
 }
 
-func roundTripStat(s *Stat) {
+func vh_roundTripStat(s *Stat) {
 	enc, err := s.MarshalVT()
 	v.Assert(err == nil, "Stat.MarshalVT succeeds")
 	v.Observe("enc", enc)
 	v.Assert(len(enc) == s.SizeVT(), "Stat encoding has the announced size")
-	v.Assert(string(enc) == string(refStat(s)), "Stat encoding equals the reference proto3 encoding")
+	v.Assert(string(enc) == string(vh_refStat(s)), "Stat encoding equals the reference proto3 encoding")
 	strict, err := s.MarshalVTStrict()
 	v.Assert(err == nil && string(strict) == string(enc), "strict and non-strict Stat encodings agree")
 	var t Stat
 	err = t.UnmarshalVT(enc)
 	v.Assert(err == nil, "Stat.UnmarshalVT accepts the encoding")
-	v.Assert(statFieldsEqual(s, &t), "Stat round trip preserves every field")
+	v.Assert(vh_statFieldsEqual(s, &t), "Stat round trip preserves every field")
 	for _, val := range t.Xattrs {
 		v.Assert(!v.Overlaps(val, enc), "decoded xattr value does not alias the input buffer")
 	}
-	v.Assert(s.EqualVT(&t) && statFieldsEqual(s, s.CloneVT()), "EqualVT and CloneVT agree with field equality")
+	v.Assert(s.EqualVT(&t) && vh_statFieldsEqual(s, s.CloneVT()), "EqualVT and CloneVT agree with field equality")
 }
 
 // VH_C20_stat_field: round trip and conformance with one field fully symbolic (all size classes).
@@ -122,12 +122,12 @@ func VH_C20_stat_field() {
 	case 10:
 		s.Xattrs = map[string][]byte{v.String("xk", v.Param("L", 1)): v.Bytes("xv", v.Param("L2", 1))}
 	}
-	roundTripStat(&s)
+	vh_roundTripStat(&s)
 	v.Cover("done")
 }
 
-func class32(x uint32) bool { return v.Or(x < 0x80, x >= 1<<28) }
-func class64(x int64) bool  { return v.Or(v.And(x >= 0, x < 0x80), x < 0) }
+func vh_class32(x uint32) bool { return v.Or(x < 0x80, x >= 1<<28) }
+func vh_class64(x int64) bool  { return v.Or(v.And(x >= 0, x < 0x80), x < 0) }
 
 // VH_C20_stat_all: all fields set together; two numeric fields (pair G) symbolic over the size
 // classes {0, one byte, maximal}, the others fixed to one value of each class; strings of L bytes (any
@@ -139,21 +139,21 @@ func VH_C20_stat_all() {
 	switch g {
 	case 0:
 		s.Mode, s.Size = v.U32("mode"), v.I64("size")
-		v.Assume(v.And(class32(s.Mode), class64(s.Size)))
+		v.Assume(v.And(vh_class32(s.Mode), vh_class64(s.Size)))
 	case 1:
 		s.Uid, s.Gid = v.U32("uid"), v.U32("gid")
-		v.Assume(v.And(class32(s.Uid), class32(s.Gid)))
+		v.Assume(v.And(vh_class32(s.Uid), vh_class32(s.Gid)))
 	case 2:
 		s.ModTime, s.Devmajor = v.I64("mtime"), v.I64("major")
-		v.Assume(v.And(class64(s.ModTime), class64(s.Devmajor)))
+		v.Assume(v.And(vh_class64(s.ModTime), vh_class64(s.Devmajor)))
 	case 3:
 		s.Devminor, s.Mode = v.I64("minor"), v.U32("mode")
-		v.Assume(v.And(class64(s.Devminor), class32(s.Mode)))
+		v.Assume(v.And(vh_class64(s.Devminor), vh_class32(s.Mode)))
 	}
 	if v.Bool("xattr") {
 		s.Xattrs = map[string][]byte{v.String("xk", 1): v.Bytes("xv", 1)}
 	}
-	roundTripStat(&s)
+	vh_roundTripStat(&s)
 	v.Cover("done")
 }
 
@@ -162,23 +162,23 @@ func VH_C20_stat_all() {
 func VH_C20_packet() {
 	d := v.Param("D", 2)
 	p := Packet{Type: Packet_PacketType(v.I32("type")), ID: v.U32("id"), Data: v.Bytes("data", d)}
-	v.Assume(class32(uint32(p.Type)) || p.Type < 8)
+	v.Assume(vh_class32(uint32(p.Type)) || p.Type < 8)
 	if v.Bool("stat") {
 		p.Stat = &Stat{Path: v.String("path", 1), Mode: v.U32("mode")}
-		v.Assume(class32(p.Stat.Mode))
+		v.Assume(vh_class32(p.Stat.Mode))
 	}
 	enc, err := p.MarshalVT()
 	v.Assert(err == nil, "Packet.MarshalVT succeeds")
 	v.Observe("enc", enc)
 	v.Assert(len(enc) == p.SizeVT(), "Packet encoding has the announced size")
-	v.Assert(string(enc) == string(refPacket(&p)), "Packet encoding equals the reference proto3 encoding")
+	v.Assert(string(enc) == string(vh_refPacket(&p)), "Packet encoding equals the reference proto3 encoding")
 	var q Packet
 	err = q.UnmarshalVT(enc)
 	v.Assert(err == nil, "Packet.UnmarshalVT accepts the encoding")
 	v.Assert(q.Type == p.Type && q.ID == p.ID && string(q.Data) == string(p.Data), "Packet round trip preserves type, id, data")
 	v.Assert((q.Stat == nil) == (p.Stat == nil), "Packet round trip preserves presence of the stat")
 	if p.Stat != nil && q.Stat != nil {
-		v.Assert(statFieldsEqual(p.Stat, q.Stat), "Packet round trip preserves the nested stat")
+		v.Assert(vh_statFieldsEqual(p.Stat, q.Stat), "Packet round trip preserves the nested stat")
 	}
 	v.Assert(!v.Overlaps(q.Data, enc), "decoded Data does not alias the input buffer")
 	v.Cover("done")
@@ -234,13 +234,13 @@ func VH_C20_decode_stat() {
 	v.Assert(err == nil, "re-encoding a decoded stat succeeds")
 	var t Stat
 	v.Assert(t.UnmarshalVT(enc) == nil, "re-encoded stat decodes")
-	v.Assert(statFieldsEqual(&s, &t), "decode/encode/decode is stable")
+	v.Assert(vh_statFieldsEqual(&s, &t), "decode/encode/decode is stable")
 }
 
-var boundaryLens = []int{0, 1, 2, 24, 60, 100, 118, 119, 120, 121, 122, 123, 124, 125, 126, 127, 128, 129, 130}
-var boundaryLensBig = []int{16370, 16372, 16374, 16376, 16378, 16379, 16380, 16381, 16382, 16383, 16384, 16385, 16386}
+var vh_boundaryLens = []int{0, 1, 2, 24, 60, 100, 118, 119, 120, 121, 122, 123, 124, 125, 126, 127, 128, 129, 130}
+var vh_boundaryLensBig = []int{16370, 16372, 16374, 16376, 16378, 16379, 16380, 16381, 16382, 16383, 16384, 16385, 16386}
 
-func patternString(tag string, n int) string {
+func vh_patternString(tag string, n int) string {
 	b := make([]byte, n)
 	for i := range b {
 		b[i] = byte(i*11 + 5)
@@ -257,31 +257,31 @@ func patternString(tag string, n int) string {
 // independently from the boundary set (F=10), so that the value, the key and the whole map entry
 // cross a boundary separately. Contents are a fixed pattern with a symbolic first byte.
 func VH_C20_stat_lengths() {
-	lens := boundaryLens
+	lens := vh_boundaryLens
 	if v.Param("BIG", 0) != 0 {
-		lens = boundaryLensBig
+		lens = vh_boundaryLensBig
 	}
 	var s Stat
 	switch v.Param("F", 10) {
 	case 1:
-		s.Path = patternString("p0", lens[v.Choose("pl", len(lens))])
+		s.Path = vh_patternString("p0", lens[v.Choose("pl", len(lens))])
 	case 7:
-		s.Linkname = patternString("l0", lens[v.Choose("ll", len(lens))])
+		s.Linkname = vh_patternString("l0", lens[v.Choose("ll", len(lens))])
 	case 10:
-		kl := boundaryLens[v.Choose("kl", len(boundaryLens))]
+		kl := vh_boundaryLens[v.Choose("kl", len(vh_boundaryLens))]
 		vl := lens[v.Choose("vl", len(lens))]
-		s.Xattrs = map[string][]byte{patternString("k0", kl): []byte(patternString("v0", vl))}
+		s.Xattrs = map[string][]byte{vh_patternString("k0", kl): []byte(vh_patternString("v0", vl))}
 	}
-	roundTripStat(&s)
+	vh_roundTripStat(&s)
 	// the same stat nested in a packet (the length prefix of the nested message crosses too)
 	p := &Packet{Type: PACKET_STAT, Stat: &s}
 	enc, err := p.MarshalVT()
 	v.Assert(err == nil && len(enc) == p.SizeVT(), "Packet encoding has the announced size")
-	v.Assert(string(enc) == string(refPacket(p)), "Packet encoding equals the reference proto3 encoding")
+	v.Assert(string(enc) == string(vh_refPacket(p)), "Packet encoding equals the reference proto3 encoding")
 	buf := make([]byte, p.SizeVT())
 	n, err := p.MarshalTo(buf)
 	v.Assert(err == nil && n == len(buf) && string(buf) == string(enc), "MarshalTo fills exactly Size() bytes with the same encoding")
 	var q Packet
-	v.Assert(q.UnmarshalVT(enc) == nil && q.Stat != nil && statFieldsEqual(&s, q.Stat), "Packet round trip preserves the nested stat")
+	v.Assert(q.UnmarshalVT(enc) == nil && q.Stat != nil && vh_statFieldsEqual(&s, q.Stat), "Packet round trip preserves the nested stat")
 	v.Cover("done")
 }
